@@ -174,6 +174,10 @@ def run_case(ctx, case):
 
 
 def finish(ctx):
+  if not ctx.quick and ctx.shard == 0:
+    # extra workload: the repository's own test-suite under passive monitors
+    from vlib.passive_run import run_suite
+    run_suite(ctx, "blocks")
   ctx.need("branch:hop<size", 50)
   ctx.need("branch:hop==size", 50)
   ctx.need("branch:hop>size", 50)
